@@ -50,6 +50,12 @@ pub open spec fn temp_free(s: State) -> bool {
 pub open spec fn cr_host_state(s: State) -> bool {
     s == State::Data || s == State::RawData(RawKind::Rcdata) || s is AttributeValue
 }
+/// representation invariant, stated on the abstract state
+pub open spec fn wf_abs(a: AbsTok) -> bool {
+    &&& temp_free(a.state) ==> a.temp.len() == 0
+    &&& forall|i: int| 0 <= i < a.temp.len() ==> #[trigger] a.temp[i] != '\0'
+    &&& a.cr.is_some() ==> cr_host_state(a.state) && !a.recons
+}
 impl Tokenizer {
     pub closed spec fn abs(&self) -> AbsTok {
         AbsTok {
@@ -77,10 +83,7 @@ impl Tokenizer {
     pub closed spec fn same_config(&self, o: &Tokenizer) -> bool {
         self.opts == o.opts && self.at_eof.v == o.at_eof.v && self.discard_bom.v == o.discard_bom.v
     }
-    pub closed spec fn wf(&self) -> bool {
-        &&& temp_free(self.state.v) ==> self.temp_buf.v@.len() == 0
-        &&& self.char_ref_tokenizer.v.is_some() ==> cr_host_state(self.state.v) && !self.reconsume.v
-    }
+    pub closed spec fn wf(&self) -> bool { wf_abs(self.abs()) }
     /// The simulation measure: the final abstract state the WHATWG machine reaches on everything
     /// that is still pending.  Every operation of the tokenizer must leave it unchanged.
     pub closed spec fn sim(&self, q: &BufferQueue) -> AbsTok {
@@ -105,9 +108,6 @@ pub struct Aux { pub cur: char, pub ig: bool }
 
 // ---- token sink model: a ghost log of the flattened tokens; replies are an arbitrary function of it ----
 pub struct Sink { pub out: Ghost<Seq<Out>> }
-pub open spec fn chars_out(s: Seq<char>, line: int) -> Seq<Out> {
-    Seq::new(s.len(), |i: int| Out { tok: OutTok::Char(s[i]), line })
-}
 /// the sink's ghost log after receiving token `t` on line `line` (character tokens flattened,
 /// parse errors not logged)
 pub open spec fn log_tok(out: Seq<Out>, t: Token, line: int) -> Seq<Out> {
@@ -116,7 +116,7 @@ pub open spec fn log_tok(out: Seq<Out>, t: Token, line: int) -> Seq<Out> {
         Token::TagToken(t) => out.push(Out { tok: OutTok::Tag { kind: t.kind, name: t.name@, self_closing: t.self_closing,
                                         attrs: abs_attrs(t.attrs@), dup: t.had_duplicate_attributes }, line }),
         Token::CommentToken(c) => out.push(Out { tok: OutTok::Comment(c@), line }),
-        Token::CharacterTokens(b) => out + chars_out(b@, line),
+        Token::CharacterTokens(b) => out + chars_out(b@),
         Token::NullCharacterToken => out.push(Out { tok: OutTok::Null, line }),
         Token::EOFToken => out.push(Out { tok: OutTok::Eof, line }),
         Token::ParseError(_) => out,
@@ -159,12 +159,14 @@ pub proof fn axiom_line_counter_bounded(t: &Tokenizer)
 pub proof fn lemma_run_cons(a: AbsTok, c: char, s: Seq<char>)
     ensures run(a, seq![c] + s) == run(spec_step(a, c), s),
 {
+    reveal_with_fuel(run, 2);
     assert((seq![c] + s).drop_first() =~= s);
 }
 pub proof fn lemma_run_concat(a: AbsTok, x: Seq<char>, y: Seq<char>)
     ensures run(a, x + y) == run(run(a, x), y),
     decreases x.len(),
 {
+    reveal_with_fuel(run, 2);
     if x.len() == 0 {
         assert(x + y =~= y);
     } else {
@@ -180,6 +182,7 @@ pub proof fn lemma_norm_plain(s: Seq<char>, rest: Seq<char>)
     ensures norm(false, s + rest) == s + norm(false, rest),
     decreases s.len(),
 {
+    reveal_with_fuel(norm, 2);
     if s.len() == 0 {
         assert(s + rest =~= rest);
         assert(s + norm(false, rest) =~= norm(false, rest));
@@ -190,15 +193,120 @@ pub proof fn lemma_norm_plain(s: Seq<char>, rest: Seq<char>)
         assert(seq![s[0]] + (s.drop_first() + norm(false, rest)) =~= s + norm(false, rest));
     }
 }
-pub proof fn lemma_emit_seq(a: AbsTok, s: Seq<char>)
-    ensures emit_seq(a, s) == (AbsTok { out: a.out + chars_out(s, a.line), ..a }),
-    decreases s.len(),
+
+// ---- small-character-set facts (bit-vector proofs) ----
+pub open spec fn scs3(a: u64, b: u64, c: u64) -> u64 { (1u64 << a) | (1u64 << b) | (1u64 << c) }
+pub open spec fn scs4(a: u64, b: u64, c: u64, d: u64) -> u64 { (1u64 << a) | (1u64 << b) | (1u64 << c) | (1u64 << d) }
+pub open spec fn scs5(a: u64, b: u64, c: u64, d: u64, e: u64) -> u64 { (1u64 << a) | (1u64 << b) | (1u64 << c) | (1u64 << d) | (1u64 << e) }
+pub open spec fn scs8(a: u64, b: u64, c: u64, d: u64, e: u64, f: u64, g: u64, h: u64) -> u64 {
+    (1u64 << a) | (1u64 << b) | (1u64 << c) | (1u64 << d) | (1u64 << e) | (1u64 << f) | (1u64 << g) | (1u64 << h)
+}
+pub proof fn lemma_scs3(a: u64, b: u64, c: u64)
+    requires a < 64, b < 64, c < 64,
+    ensures forall|x: u8| #[trigger] set_has(scs3(a, b, c), x) <==> (x as u64 == a || x as u64 == b || x as u64 == c),
 {
-    if s.len() == 0 {
-        assert(a.out + chars_out(s, a.line) =~= a.out);
+    assert forall|x: u8| #[trigger] set_has(scs3(a, b, c), x) <==> (x as u64 == a || x as u64 == b || x as u64 == c) by {
+        let y = x as u64;
+        assert(a < 64 && b < 64 && c < 64 && y < 256 ==>
+            ((y < 64 && ((((1u64 << a) | (1u64 << b) | (1u64 << c)) >> y) & 1u64) == 1u64) <==> (y == a || y == b || y == c))) by (bit_vector);
+    }
+}
+pub proof fn lemma_scs4(a: u64, b: u64, c: u64, d: u64)
+    requires a < 64, b < 64, c < 64, d < 64,
+    ensures forall|x: u8| #[trigger] set_has(scs4(a, b, c, d), x) <==> (x as u64 == a || x as u64 == b || x as u64 == c || x as u64 == d),
+{
+    assert forall|x: u8| #[trigger] set_has(scs4(a, b, c, d), x) <==> (x as u64 == a || x as u64 == b || x as u64 == c || x as u64 == d) by {
+        let y = x as u64;
+        assert(a < 64 && b < 64 && c < 64 && d < 64 && y < 256 ==>
+            ((y < 64 && ((((1u64 << a) | (1u64 << b) | (1u64 << c) | (1u64 << d)) >> y) & 1u64) == 1u64) <==> (y == a || y == b || y == c || y == d))) by (bit_vector);
+    }
+}
+pub proof fn lemma_scs5(a: u64, b: u64, c: u64, d: u64, e: u64)
+    requires a < 64, b < 64, c < 64, d < 64, e < 64,
+    ensures forall|x: u8| #[trigger] set_has(scs5(a, b, c, d, e), x) <==> (x as u64 == a || x as u64 == b || x as u64 == c || x as u64 == d || x as u64 == e),
+{
+    assert forall|x: u8| #[trigger] set_has(scs5(a, b, c, d, e), x) <==> (x as u64 == a || x as u64 == b || x as u64 == c || x as u64 == d || x as u64 == e) by {
+        let y = x as u64;
+        assert(a < 64 && b < 64 && c < 64 && d < 64 && e < 64 && y < 256 ==>
+            ((y < 64 && ((((1u64 << a) | (1u64 << b) | (1u64 << c) | (1u64 << d) | (1u64 << e)) >> y) & 1u64) == 1u64) <==> (y == a || y == b || y == c || y == d || y == e))) by (bit_vector);
+    }
+}
+pub proof fn lemma_scs8(a: u64, b: u64, c: u64, d: u64, e: u64, f: u64, g: u64, h: u64)
+    requires a < 64, b < 64, c < 64, d < 64, e < 64, f < 64, g < 64, h < 64,
+    ensures forall|x: u8| #[trigger] set_has(scs8(a, b, c, d, e, f, g, h), x) <==>
+        (x as u64 == a || x as u64 == b || x as u64 == c || x as u64 == d || x as u64 == e || x as u64 == f || x as u64 == g || x as u64 == h),
+{
+    assert forall|x: u8| #[trigger] set_has(scs8(a, b, c, d, e, f, g, h), x) <==>
+        (x as u64 == a || x as u64 == b || x as u64 == c || x as u64 == d || x as u64 == e || x as u64 == f || x as u64 == g || x as u64 == h) by {
+        let y = x as u64;
+        assert(a < 64 && b < 64 && c < 64 && d < 64 && e < 64 && f < 64 && g < 64 && h < 64 && y < 256 ==>
+            ((y < 64 && ((((1u64 << a) | (1u64 << b) | (1u64 << c) | (1u64 << d) | (1u64 << e) | (1u64 << f) | (1u64 << g) | (1u64 << h)) >> y) & 1u64) == 1u64)
+             <==> (y == a || y == b || y == c || y == d || y == e || y == f || y == g || y == h))) by (bit_vector);
+    }
+}
+
+// ---- runs of ordinary characters ----
+pub open spec fn is_text_state(s: State) -> bool { s == State::Data || s == State::Plaintext || s is RawData }
+/// c is a character that text state `s` just emits
+pub open spec fn plain_text(s: State, c: char) -> bool {
+    c != '\r' && c != '\n' && c != '\0' && match s {
+        State::Data => c != '&' && c != '<',
+        State::RawData(RawKind::Rcdata) => c != '&' && c != '<',
+        State::RawData(RawKind::Rawtext) => c != '<',
+        State::RawData(RawKind::ScriptData) => c != '<',
+        State::RawData(RawKind::ScriptDataEscaped(_)) => c != '-' && c != '<',
+        _ => true,
+    }
+}
+pub open spec fn all_plain_text(s: State, x: Seq<char>) -> bool {
+    forall|i: int| 0 <= i < x.len() ==> plain_text(s, #[trigger] x[i])
+}
+pub proof fn lemma_run_text(a: AbsTok, x: Seq<char>)
+    requires is_text_state(a.state), a.cr is None, !a.recons, all_plain_text(a.state, x),
+    ensures run(a, x) == emit_seq(a, x),
+    decreases x.len(),
+{
+    reveal_with_fuel(run, 2);
+    reveal(spec_step); reveal(s_simple); reveal(s_data); reveal(s_rcdata); reveal(s_rawtext); reveal(s_script_escaped);
+    reveal(s_rawdata); reveal(s_plaintext);
+    if x.len() > 0 {
+        assert(plain_text(a.state, x[0]));
+        assert(spec_step(a, x[0]) == emit_ch(a, x[0]));
+        assert forall|i: int| 0 <= i < x.drop_first().len() implies plain_text(a.state, #[trigger] x.drop_first()[i]) by {
+            assert(x.drop_first()[i] == x[i + 1]);
+        }
+        lemma_run_text(emit_ch(a, x[0]), x.drop_first());
+        assert(a.out.push(Out { tok: OutTok::Char(x[0]), line: 0 }) + chars_out(x.drop_first()) =~= a.out + chars_out(x));
     } else {
-        let b = emit(a, OutTok::Char(s[0]));
-        lemma_emit_seq(b, s.drop_first());
-        assert(b.out + chars_out(s.drop_first(), a.line) =~= a.out + chars_out(s, a.line));
+        assert(a.out + chars_out(x) =~= a.out);
+    }
+}
+pub open spec fn plain_attr(k: AttrValueKind, c: char) -> bool {
+    c != '\r' && c != '\n' && c != '\0' && c != '&' && match k {
+        AttrValueKind::DoubleQuoted => c != '"',
+        AttrValueKind::SingleQuoted => c != '\'',
+        AttrValueKind::Unquoted => c != '\t' && c != '\x0C' && c != ' ' && c != '>',
+    }
+}
+pub open spec fn all_plain_attr(k: AttrValueKind, x: Seq<char>) -> bool {
+    forall|i: int| 0 <= i < x.len() ==> plain_attr(k, #[trigger] x[i])
+}
+pub proof fn lemma_run_attr(a: AbsTok, k: AttrValueKind, x: Seq<char>)
+    requires a.state == State::AttributeValue(k), a.cr is None, !a.recons, all_plain_attr(k, x),
+    ensures run(a, x) == (AbsTok { attr_value: a.attr_value + x, ..a }),
+    decreases x.len(),
+{
+    reveal_with_fuel(run, 2);
+    reveal(spec_step); reveal(s_simple); reveal(s_attr_value);
+    if x.len() == 0 {
+        assert(a.attr_value + x =~= a.attr_value);
+    } else {
+        assert(plain_attr(k, x[0]));
+        assert(spec_step(a, x[0]) == push_value(a, x[0]));
+        assert forall|i: int| 0 <= i < x.drop_first().len() implies plain_attr(k, #[trigger] x.drop_first()[i]) by {
+            assert(x.drop_first()[i] == x[i + 1]);
+        }
+        lemma_run_attr(push_value(a, x[0]), k, x.drop_first());
+        assert(a.attr_value.push(x[0]) + x.drop_first() =~= a.attr_value + x);
     }
 }
